@@ -298,7 +298,7 @@ fn finite_bits(rng: &mut Rng) -> f32 {
 
 fn gen_matrix(rng: &mut Rng, tier: &str) -> (String, Vec<[f32; 5]>) {
     let maxw = if tier == "thorough" { 64 } else { 40 };
-    let mut m = match rng.below(20) {
+    let m = match rng.below(20) {
         0 => 1,
         1 => 2,
         2 => maxw as u64,
@@ -310,7 +310,6 @@ fn gen_matrix(rng: &mut Rng, tier: &str) -> (String, Vec<[f32; 5]>) {
     let kind;
     if k < 1 {
         kind = "empty";
-        m = 0;
     } else if k < 26 {
         // CountMatrix -> to_freq(pseudocount) -> to_scoring (base-2 log-odds, uniform background)
         kind = "counts";
@@ -543,9 +542,41 @@ fn gen_seq(rng: &mut Rng, rows: &[[f32; 5]], tier: &str) -> String {
     }
 }
 
-fn gen_case(rng: &mut Rng, id: usize, tier: &str) -> String {
-    let (kind, rows) = gen_matrix(rng, tier);
-    let seq = gen_seq(rng, &rows, tier);
+/// The conditioning predicate of coq/disc/DiscModel.v (`well_conditioned`), recomputed
+/// natively; informative only (histogram of the generated stream), never used for a verdict.
+fn ulp(x: f32) -> f32 {
+    if !x.is_finite() {
+        return f32::INFINITY;
+    }
+    let e = ((x.to_bits() >> 23) & 0xff).max(1) as i32;
+    2f32.powi(e - 127 - 23)
+}
+
+fn conditioning(rows: &[[f32; 5]]) -> &'static str {
+    let pssm = ScoringMatrix::<Dna>::new(Background::uniform(), DenseMatrix::from_rows(rows.iter()));
+    let factor = match no_panic(|| pssm.to_discrete()).and_then(|d| private_fields(&d)) {
+        None => return "na",
+        Some((f, _, _)) => f,
+    };
+    let mut a = 0f32;
+    for r in rows {
+        let mut mx = 0f32;
+        for x in r.iter() {
+            if x.is_finite() {
+                mx = mx.max(x.abs());
+            }
+        }
+        a += mx;
+    }
+    let bound = (8 * (rows.len() + 1)) as f32 * ulp(a);
+    if !factor.is_nan() && (factor == 0.0 || bound <= factor) {
+        "1"
+    } else {
+        "0"
+    }
+}
+
+fn case_line(rng: &mut Rng, id: &str, kind: &str, rows: &[[f32; 5]], seq: &str) -> String {
     let m = rows.len();
     // thresholds: specials, below the minimum, above the maximum, attainable scores, random in range
     let mut lo = 0f32;
@@ -599,16 +630,72 @@ fn gen_case(rng: &mut Rng, id: usize, tier: &str) -> String {
         }
     };
     format!(
-        "{} kind={} mat={} seq={} thr={} bytes={} sub={}:{}",
+        "{} kind={} wc={} mat={} seq={} thr={} bytes={} sub={}:{}",
         id,
         kind,
-        show_matrix(&rows),
+        conditioning(rows),
+        show_matrix(rows),
         seq,
         thr.iter().map(|x| bits(*x).to_string()).collect::<Vec<_>>().join(","),
         bytes.iter().map(|x| x.to_string()).collect::<Vec<_>>().join(","),
         slo,
         shi
     )
+}
+
+fn gen_case(rng: &mut Rng, id: usize, tier: &str) -> String {
+    let (kind, rows) = gen_matrix(rng, tier);
+    let seq = gen_seq(rng, &rows, tier);
+    case_line(rng, &id.to_string(), &kind, &rows, &seq)
+}
+
+/// Boundary cases written once to corpus/C08/boundary.txt (`disc corpus`).
+fn corpus_cases() -> Vec<String> {
+    let mut rng = Rng::new(8);
+    let mut out = vec![];
+    // the README motif, its consensus word (sum of rounded-up cells 269 > 255) and the documented sequence
+    let seqs = ["GTTGACCTTATCAAC", "GTTGATCCAGTCAAC"];
+    let cm = CountMatrix::<Dna>::from_sequences(seqs.iter().map(|s| EncodedSequence::encode(s).unwrap())).unwrap();
+    let pssm = cm.to_freq(0.1).to_scoring(None);
+    let rows: Vec<[f32; 5]> = (0..pssm.matrix().rows())
+        .map(|i| {
+            let mut r = [0f32; 5];
+            for j in 0..5 {
+                r[j] = pssm.matrix()[i][j];
+            }
+            r
+        })
+        .collect();
+    out.push(case_line(&mut rng, "readme-consensus", "counts", &rows, "GTTGACCTTATCAACGTTGATCCAGTCAAC"));
+    out.push(case_line(
+        &mut rng,
+        "readme-doc",
+        "counts",
+        &rows,
+        "ATGTCCCAACAACGATACCCCGAGCCCATCGCCGTCATCGGCTCGGCATGCAGATTCCCAGGCG",
+    ));
+    out.push(case_line(&mut rng, "readme-wild", "counts", &rows, "GTTGACCNTATCAACNNNNNNNNNNNNNNNNNGTTGATCCAGTCAAC"));
+    // constant matrix, one row matrix, empty matrix, equal cells with signed zeros
+    let c = vec![[1.5f32, 1.5, 1.5, 1.5, f32::NEG_INFINITY]; 4];
+    out.push(case_line(&mut rng, "constant", "constant", &c, "ACGTNACGTACGT"));
+    let c = vec![[1.5f32, 1.5, 1.5, 1.5, 2.0]; 3];
+    out.push(case_line(&mut rng, "constant-wild-above", "constant", &c, "ACGTNACGTACGNNNT"));
+    out.push(case_line(&mut rng, "one-row", "finite", &[[0.25f32, -1.0, 3.0, 0.0, f32::NEG_INFINITY]], "ACGTN"));
+    out.push(case_line(&mut rng, "empty", "empty", &[], "ACGTN"));
+    out.push(case_line(&mut rng, "empty-empty", "empty", &[], "-"));
+    let z = vec![[0.0f32, -0.0, 0.0, -0.0, -0.0], [-0.0, 0.0, -0.0, 0.0, 0.0], [1.0, -0.0, 0.0, 1.0, f32::NEG_INFINITY]];
+    out.push(case_line(&mut rng, "signed-zeros", "ties", &z, "ACGTACGTNNACGT"));
+    // forty flat rows: every consensus cell rounds up, sum far above 255
+    let mut flat = vec![];
+    for i in 0..40 {
+        flat.push([0.0f32, 0.1 + (i as f32) * 0.001, 0.05, 0.02, f32::NEG_INFINITY]);
+    }
+    let cons: String = std::iter::repeat('C').take(40).collect();
+    out.push(case_line(&mut rng, "flat40", "flat", &flat, &format!("{}A{}", cons, cons)));
+    // sequence shorter than the motif, sequence of exactly the motif length
+    out.push(case_line(&mut rng, "short", "counts", &rows, "GTTGACCTTATCAA"));
+    out.push(case_line(&mut rng, "exact", "counts", &rows, "GTTGACCTTATCAAC"));
+    out
 }
 
 fn main() {
@@ -619,6 +706,12 @@ fn main() {
             let mut rng = Rng::new(args.seed);
             for id in 0..args.n {
                 println!("{}", gen_case(&mut rng, id, &args.tier));
+            }
+        }
+        "corpus" => {
+            silence_panics();
+            for l in corpus_cases() {
+                println!("{}", l);
             }
         }
         "run" => {
